@@ -503,7 +503,7 @@ Tier TierConfig(const std::string &tier) {
     t.step_mult = 1000;
     t.step_cap = 200000000ull;
   } else {
-    t.enum_max_len = 1300;
+    t.enum_max_len = 700;
     t.sample_enum = 1200;
     t.random_small = 700;
     t.random_large = 300;
@@ -738,11 +738,15 @@ class Batch {
       }
       p.faults = RandomFaultPlan(r.Fork(j), len, others);
     }
-    // Entry points: type probe and both FromBuffer calls always; one of the
-    // remaining four in rotation.
-    p.entries = (1 << E_TYPE) | (1 << E_MESH) | (1 << E_PC);
-    const int extra = E_TO_MESH + static_cast<int>(r.Fork("entry").Below(4));
-    p.entries |= 1 << extra;
+    // Entry points: the type probe and the FromBuffer call matching the
+    // substrate's geometry type always; one of the remaining five in rotation.
+    const bool mesh_stream = len > 7 && s.bytes[7] == 1;
+    const int main_entry = mesh_stream ? E_MESH : E_PC;
+    p.entries = (1 << E_TYPE) | (1 << main_entry);
+    static const int kOthersMesh[5] = {E_PC, E_TO_MESH, E_TO_PC, E_SKIP, E_ANIM};
+    static const int kOthersPc[5] = {E_MESH, E_TO_MESH, E_TO_PC, E_SKIP, E_ANIM};
+    const int pick = static_cast<int>(r.Fork("entry").Below(5));
+    p.entries |= 1 << (mesh_stream ? kOthersMesh[pick] : kOthersPc[pick]);
     p.skip_mask = static_cast<int>(r.Fork("skip").Below(31)) + 1;
     p.mirrored = r.Fork("mirror").Below(4) == 0;
     return p;
